@@ -285,12 +285,31 @@ func c20Queries(x *engine.Exec, ref *pendRef) []engine.Failure {
 					}
 					x.Cnt.Inc("query.binding.delegation")
 				}
+				// binding: claimable rewards equal the gRPC answer (both claim on a context; each gets its own discarded branch)
+				if has {
+					c1, _ := ctx.CacheContext()
+					c2, _ := ctx.CacheContext()
+					gr, gerr := qs.AllianceDelegationRewards(c1, &types.QueryAllianceDelegationRewardsRequest{DelegatorAddr: w.Dels[d].String(), ValidatorAddr: w.Vals[v].String(), Denom: den})
+					bres, berr := bindings.CustomQuerier(bindings.NewAllianceQueryPlugin(&w.App.AllianceKeeper))(c2, mustJSON(btypes.AllianceQuery{DelegationRewards: &btypes.DelegationRewards{Denom: den, Delegator: w.Dels[d].String(), Validator: w.Vals[v].String()}}))
+					if (gerr == nil) != (berr == nil) {
+						add(fail("binding-rewards", "", "delegation_rewards(d%d,v%d,%s): gRPC err %v, binding err %v", d, v, den, gerr, berr))
+					} else if gerr == nil {
+						var br btypes.DelegationRewardsResponse
+						if json.Unmarshal(bres, &br) != nil || !sdk.Coins(br.Rewards).Equal(sdk.Coins(gr.Rewards)) {
+							add(fail("binding-rewards", "", "delegation_rewards(d%d,v%d,%s): binding %s vs gRPC %s", d, v, den, string(bres), gr.Rewards))
+						}
+						if !sdk.Coins(gr.Rewards).IsZero() {
+							x.Cnt.Inc("query.binding.rewards_nonzero")
+						}
+					}
+					x.Cnt.Inc("query.binding.rewards")
+				}
 				// the reported balance is what can be undelegated right now: b succeeds, b+1 fails (discarded branches)
 				if has && bal.IsPositive() {
 					r := w.Exec(ctx, world.Op{K: world.KUndelegate, D: d, V: v, Denom: den, Amt: bal.String()})
 					x.Cnt.Inc("probe.undelegate_balance")
 					if r.Err != nil {
-						add(fail("balance-withdrawable", c20ClassifyExit(s, p, r.Err), "%s reports %s (exact %s) but Undelegate(%s) fails: %v", p.Key(), bal, world.RatF(p.Value), bal, r.Err))
+						add(fail("balance-withdrawable", c20ClassifyExit(x, s, p, r.Err), "%s reports %s (exact %s) but Undelegate(%s) fails: %v", p.Key(), bal, world.RatF(p.Value), bal, r.Err))
 					}
 					r = w.Exec(ctx, world.Op{K: world.KUndelegate, D: d, V: v, Denom: den, Amt: bal.AddRaw(1).String()})
 					if r.Err == nil {
@@ -363,14 +382,17 @@ func mustJSON(v any) []byte {
 	return b
 }
 
-func c20ClassifyExit(s *world.Snap, p world.Pos, err error) string {
+func c20ClassifyExit(x *engine.Exec, s *world.Snap, p world.Pos, err error) string {
 	e := err.Error()
 	vs := s.Vals[p.V]
 	D, vt := vs.DelShares[p.Denom], vs.Tokens[p.Denom]
 	short := strings.Contains(e, "insufficient delegation shares") || strings.Contains(e, "insufficient tokens")
 	switch {
 	case strings.Contains(e, "insufficient funds"):
-		return "reward-pool-short"
+		if valueChangeAfterReward(x) {
+			return "reward-pool-short"
+		}
+		return ""
 	case short && D != nil && D.Sign() > 0 && D.Cmp(ratI(1)) < 0:
 		return "full-exit-below-one-delegator-share"
 	case short && D != nil && vt != nil && vt.Sign() > 0 && world.RatInt(p.Reported).Cmp(p.Value) > 0 && ratMul(ratQuo(D, vt), ratSub(world.RatInt(p.Reported), p.Value)).Cmp(ratQuo(ratI(1), ratI(100))) >= 0 && needsMoreWholeShares(p, D, vt):
@@ -448,6 +470,9 @@ func init() {
 				if len(n.Snap().Unb)+len(n.Snap().Redels) > 0 {
 					ops = append(ops, world.Op{K: world.KReimport, Class: ClsEnv})
 				}
+				if atBlockStart(n) && len(n.Trace) > 0 {
+					ops = append(ops, world.Op{K: world.KReward, Denom: "stake", Amt: "1000003", Class: ClsEnv})
+				}
 				return ops
 			}
 			mk := func(name string, budgets []int, depth int) *engine.Scenario {
@@ -456,7 +481,7 @@ func init() {
 					Seeds: [][]world.Op{c07Seed}, ClassNames: classNames, Budgets: budgets, MaxDepth: depth,
 					NewRef: func(w *world.World, root *engine.Node) engine.Ref { return newPendRef() },
 					Ops:    ops, Step: c20Step, SeedStep: true,
-					Required: []string{"query.unbondings.nonempty", "query.redelegations.followed_next_key", "state.bucket_with_2plus_entries", "state.after_slash", "probe.undelegate_balance", "query.binding.alliance", "query.binding.delegation", "state.after_genesis_reimport"},
+					Required: []string{"query.unbondings.nonempty", "query.redelegations.followed_next_key", "state.bucket_with_2plus_entries", "state.after_slash", "probe.undelegate_balance", "query.binding.alliance", "query.binding.delegation", "state.after_genesis_reimport", "query.binding.rewards_nonzero"},
 				}
 			}
 			if tier == "thorough" {
